@@ -256,7 +256,7 @@ def runSend (P : Params) (o : Oracle) (s : State) (t : TxIn) (price : Int) : M O
     if t.gasCoin != coin && balanceOf s t.sender coin < value then return ← fail 107
     if balanceOf s t.sender t.gasCoin < need then return ← fail 107
     let (pc, cAmt, cBase) ← payCommission s t.sender t.gasCoin com
-    return { code := 0, moves := pc ++ [.transfer t.sender to coin value, .admin (.setNonce t.sender t.nonce)],
+    return { code := 0, moves := pc ++ [.transfer t.sender to coin value],
              tags := [("tx.commission_amount", toString cAmt), ("tx.commission_in_base_coin", toString cBase)] }
 
 def sumFor (items : List (Coin × Addr × Int)) (c : Coin) : Int :=
@@ -276,7 +276,7 @@ def runMultisend (P : Params) (o : Oracle) (s : State) (t : TxIn) (price : Int) 
     if short then return ← fail 107
     let (pc, cAmt, cBase) ← payCommission s t.sender t.gasCoin com
     let moves := items.map (fun it => Move.transfer t.sender it.2.1 it.1 it.2.2)
-    return { code := 0, moves := pc ++ moves ++ [.admin (.setNonce t.sender t.nonce)],
+    return { code := 0, moves := pc ++ moves,
              tags := [("tx.commission_amount", toString cAmt), ("tx.commission_in_base_coin", toString cBase)] }
 
 /-! Shared shape of most handlers: compute the commission, run type specific checks, then pay the commission,
@@ -289,7 +289,7 @@ def withCom (P : Params) (o : Oracle) (s : State) (t : TxIn) (price : Int) (k : 
 
 def finish (s : State) (t : TxIn) (com : Com) (body : List Move) (tags : List (String × String) := []) : M Outcome := do
   let (pc, cAmt, cBase) ← payCommission s t.sender t.gasCoin com
-  return { code := 0, moves := pc ++ body ++ [.admin (.setNonce t.sender t.nonce)],
+  return { code := 0, moves := pc ++ body,
            tags := [("tx.commission_amount", toString cAmt), ("tx.commission_in_base_coin", toString cBase)] ++ tags }
 
 def oneBip : Int := 1000000000000000000
@@ -497,33 +497,80 @@ def failFee (P : Params) (o : Oracle) (s : State) (t : TxIn) (code : Nat) : M Ou
       let (pc, cAmt, _) ← payCommission s payer t.comCoin cm
       return { code := code, moves := pc, tags := [("tx.fail_fee", toString cAmt)] }
 
-/-- DeliverTx. -/
-def deliverTx (P : Params) (o : Oracle) (s : State) (block : Nat) (t : TxIn) : M Outcome := do
-  if t.tooLarge || t.rawLen > P.maxTxLen then return ← fail 105
-  if !t.dec then return ← fail 106
-  if t.typ == 37 && block ≤ P.lockStakeGate then return ← fail 124
-  if t.chain != P.chain then return ← fail 115
-  if !coinExists s t.comCoin then return ← fail 102
-  if t.payLen > P.maxPayload then return ← fail 109
-  if t.svcLen > P.maxService then return ← fail 110
-  if !t.sigOk then return ← fail 106
-  if t.sigType == 2 then
-    match multisigCheck s t with
-    | some c => return ← fail c
-    | none => pure ()
-  if nonceOf s t.sender + 1 != t.nonce then return ← fail 101
+/-- The checks of RunTx that precede the handler: first failing response code, `none` when all pass. -/
+def prologue (P : Params) (s : State) (block : Nat) (t : TxIn) : Option Nat :=
+  if t.tooLarge || t.rawLen > P.maxTxLen then some 105
+  else if !t.dec then some 106
+  else if t.typ == 37 && block ≤ P.lockStakeGate then some 124
+  else if t.chain != P.chain then some 115
+  else if !coinExists s t.comCoin then some 102
+  else if t.payLen > P.maxPayload then some 109
+  else if t.svcLen > P.maxService then some 110
+  else if !t.sigOk then some 106
+  else
+    match (if t.sigType == 2 then multisigCheck s t else none) with
+    | some c => some c
+    | none => if nonceOf s t.sender + 1 != t.nonce then some 101 else none
+
+/-- Who may be debited by a transaction's own moves: its sender (for a check redemption also the check issuer,
+    carried in `issuer`). Pool moves pay out to anyone; the burn address and the zero address only receive. -/
+def Move.debitOk (sender : Addr) (issuer : Option Addr) : Move → Bool
+  | .transfer a _ _ v => decide (0 ≤ v) && (a == sender || issuer == some a)
+  | .mint a _ v => decide (0 ≤ v) || a == sender
+  | .feeBase payer v => decide (0 ≤ v) && (payer == sender || issuer == some payer)
+  | .feeBancor payer _ commission _ => decide (0 ≤ commission) && (payer == sender || issuer == some payer)
+  | .poolSell payer _ _ _ net out burn _ _ => decide (0 ≤ net) && decide (0 ≤ out) && decide (0 ≤ burn) && (payer == sender || issuer == some payer)
+  | .createCoin owner _ => owner == sender
+  | .burnTicker v => decide (0 ≤ v)
+  | .admin _ => true
+
+def Move.isSetNonce : Move → Bool
+  | .admin (.setNonce _ _) => true
+  | _ => false
+
+/-- Fee moves: the only moves a rejected transaction may make. -/
+def Move.isFee : Move → Bool
+  | .feeBase _ _ => true
+  | .feeBancor _ _ _ _ => true
+  | .poolSell _ _ _ _ _ _ _ toRewards _ => toRewards
+  | _ => false
+
+/-- Success path: the handler's moves, the ticker burn for new coins/tokens, and the nonce bump. -/
+def tickerBurn (s : State) (t : TxIn) : List Move :=
+  if t.typ == 5 || t.typ == 30 then [.burnTicker ((t.gasPrice : Int) * tickerPrice s (t.str "d.Symbol"))] else []
+
+def successMoves (s : State) (t : TxIn) (r : Outcome) : List Move :=
+  r.moves ++ tickerBurn s t ++ [.admin (.setNonce t.sender t.nonce)]
+
+def successOutcome (s : State) (t : TxIn) (r : Outcome) : M Outcome :=
+  if !((successMoves s t r).all (Move.debitOk t.sender none)) then throw (.panic "model: unauthorised debit in a handler")
+  else if r.moves.any Move.isSetNonce then throw (.panic "model: handler touched a nonce")
+  else pure { code := 0, moves := successMoves s t r, tags := r.tags }
+
+/-- Failure path: the failure fee (or nothing), never a success code. -/
+def failureOutcome (P : Params) (o : Oracle) (s : State) (t : TxIn) (code : Nat) : M Outcome :=
+  match failFee P o s t code with
+  | .ok f =>
+    if f.code == 0 then throw (.panic "model: failure path returned OK")
+    else if !(f.moves.all Move.isFee) then throw (.panic "model: failure path made a non-fee move")
+    else if !(f.moves.all (Move.debitOk t.sender none)) then throw (.panic "model: failure fee charged to a third party")
+    else pure f
+  | .error e => throw e
+
+/-- Everything after the prologue. -/
+def deliverBody (P : Params) (o : Oracle) (s : State) (block : Nat) (t : TxIn) : M Outcome :=
   let price := txPrice s t
   if price != 0 && priceCoin s != 0 then throw (.unmodelled "price table in a custom coin")
-  if price != 0 && price ≤ 0 then return ← fail 119
-  let r ← runData P o s block t price
-  if r.code != 0 then
-    failFee P o s t r.code
-  else if t.typ == 5 || t.typ == 30 then
-    -- the ticker price is burned: moved from the fee pool to the zero address
-    let symbolPrice := (t.gasPrice : Int) * tickerPrice s (t.str "d.Symbol")
-    if symbolPrice ≤ 0 then return { code := 119 }      -- NOTE: the Go code returns this error *after* Run has mutated the state (S5)
-    return { r with moves := r.moves ++ [.burnTicker symbolPrice] }
+  else if price != 0 && price ≤ 0 then pure { code := 119 }
   else
-    return r
+    match runData P o s block t price with
+    | .error e => throw e
+    | .ok r => if r.code != 0 then failureOutcome P o s t r.code else successOutcome s t r
+
+/-- DeliverTx. -/
+def deliverTx (P : Params) (o : Oracle) (s : State) (block : Nat) (t : TxIn) : M Outcome :=
+  match prologue P s block t with
+  | some c => pure { code := c }
+  | none => deliverBody P o s block t
 
 end Minter
